@@ -146,16 +146,16 @@ fn roundtrip_case(r: &mut Rng, id: u64, out: &mut Out, fixed: Option<&str>, tree
                 v
             });
             match r2 {
-                Ok(t2) => out.line(&json!({"ev":"rt","case":id,"t1":t1,"ser":cps(&bytes),"t2":t2,"panic":[]})),
-                Err(m) => out.line(&json!({"ev":"rt","case":id,"t1":t1,"ser":cps(&bytes),"t2":[],"panic":[cps(&m)]})),
+                Ok(t2) => out.line(&json!({"ev":"rt","case":id,"t1":t1,"ser":cps(&bytes),"t2":t2,"panic":[],"scripting":scripting})),
+                Err(m) => out.line(&json!({"ev":"rt","case":id,"t1":t1,"ser":cps(&bytes),"t2":[],"panic":[cps(&m)],"scripting":scripting})),
             }
         },
-        Err(m) => out.line(&json!({"ev":"rt","case":id,"t1":t1,"ser":[],"t2":[],"panic":[cps(&m)]})),
+        Err(m) => out.line(&json!({"ev":"rt","case":id,"t1":t1,"ser":[],"t2":[],"panic":[cps(&m)],"scripting":scripting})),
     }
 }
 
 /// for every element below `h`: inner / outer serializations
-fn inner_outer(h: &Handle, scripting: bool, id: u64, out: &mut Out, n: &mut usize) {
+fn inner_outer(h: &Handle, scripting: bool, id: u64, out: &mut Out, n: &mut usize, src: &str) {
     for c in h.children.borrow().iter() {
         if let NodeData::Element { name, template_contents, .. } = &c.data {
             *n += 1;
@@ -173,9 +173,9 @@ fn inner_outer(h: &Handle, scripting: bool, id: u64, out: &mut Out, n: &mut usiz
             };
             out.line(&json!({"ev":"io","case":id,"ns":ns_tag(&name.ns),"local":cps(&name.local),"nchildren":kids.len(),
                              "single_text":single_text,"scripting":scripting,"inner":i,"outer":o,"panic":p,
-                             "is_template": template_contents.borrow().is_some()}));
+                             "is_template": template_contents.borrow().is_some(), "src": cps(src)}));
             drop(kids);
-            inner_outer(c, scripting, id, out, n);
+            inner_outer(c, scripting, id, out, n, src);
         }
     }
 }
@@ -204,6 +204,11 @@ pub fn main(args: &Args) {
                     } else if c.get("tree").is_some() {
                         id += 1;
                         roundtrip_case(&mut r, id, &mut out, None, Some(&c));
+                    } else if c["ev"] == "rt" {
+                        // a recorded round trip: the tree is rebuilt from its dump and put through the current code again
+                        id += 1;
+                        let t = json!({"tree": c["t1"], "scripting": c.get("scripting").cloned().unwrap_or(json!(true))});
+                        roundtrip_case(&mut r, id, &mut out, None, Some(&t));
                     }
                 }
             } else {
@@ -215,6 +220,28 @@ pub fn main(args: &Args) {
         _ => {
             // inner/outer on parsed documents: fixed corpus, family soup, random trees with special parents
             let mut id = 0u64;
+            if args.has("replay") {
+                // recorded inner/outer cases: each distinct (document, scripting) is parsed and serialized again
+                let mut seen: Vec<(String, bool)> = Vec::new();
+                for c in read_cases() {
+                    if c["ev"] != "io" || c.get("src").is_none() {
+                        continue;
+                    }
+                    let key = (from_cps(&c["src"]), c["scripting"].as_bool().unwrap_or(true));
+                    if seen.contains(&key) {
+                        continue;
+                    }
+                    seen.push(key.clone());
+                    id += 1;
+                    let opts = ParseOpts { tree_builder: TreeBuilderOpts { scripting_enabled: key.1, ..Default::default() }, ..Default::default() };
+                    if let Ok(dom) = catch(|| parse_document(RcDom::default(), opts).one(StrTendril::from_slice(&key.0))) {
+                        let mut cnt = 0;
+                        inner_outer(&dom.document, key.1, id, &mut out, &mut cnt, &key.0);
+                    }
+                }
+                out.flush();
+                return;
+            }
             let mut texts: Vec<String> = DOCS.iter().map(|s| s.to_string()).collect();
             for _ in 0..n {
                 let fam = r.pick(crate::parsegen::FAMILIES).1;
@@ -237,7 +264,7 @@ pub fn main(args: &Args) {
                     let r = catch(|| parse_document(RcDom::default(), opts).one(StrTendril::from_slice(&t)));
                     if let Ok(dom) = r {
                         let mut cnt = 0;
-                        inner_outer(&dom.document, scripting, id, &mut out, &mut cnt);
+                        inner_outer(&dom.document, scripting, id, &mut out, &mut cnt, &t);
                     }
                 }
             }
